@@ -3,12 +3,13 @@ package main
 // Custom extraction kinds of family coll2.
 //
 //   decimal_in_func : Regex (capture group 1) over the normalised text of Func must capture a decimal
-//                     literal such as 0.99; emitted as the exact ratio  <coq>_num / <coq>_den  (N).
+//                     literal such as 0.99, or the name of a constant whose value is such a literal; emitted as the exact ratio  <coq>_num / <coq>_den  (N).
 //   all_in_func     : every match of Regex capture group 1 in Func, emitted as `list string`
 //                     (same as regex_all, kept under a family name so the spec reads naturally).
 
 import (
 	"fmt"
+	"go/ast"
 	"regexp"
 	"strings"
 )
@@ -31,7 +32,37 @@ func init() {
 		if m == nil || len(m) < 2 {
 			return "", fmt.Errorf("pattern %q not found in %s", it.Regex, it.Func)
 		}
-		lit := strings.ReplaceAll(m[1], "_", "")
+		lit := m[1]
+		// a named constant and a literal of the same value are the same fact: resolve identifiers
+		// (function-local constants first, then package-level ones), through parentheses and chains
+		for depth := 0; regexp.MustCompile(`^[A-Za-z_][A-Za-z0-9_]*$`).MatchString(lit); depth++ {
+			if depth > 10 {
+				return "", fmt.Errorf("constant chain too deep at %q", lit)
+			}
+			e := findConstExpr(p, lit, it.Func)
+			if e == nil {
+				e = findConstExpr(p, lit, "")
+			}
+			if e == nil {
+				return "", fmt.Errorf("identifier %q is not a constant of %s", lit, it.Pkg)
+			}
+			for {
+				if pe, ok := e.(*ast.ParenExpr); ok {
+					e = pe.X
+					continue
+				}
+				break
+			}
+			switch x := e.(type) {
+			case *ast.BasicLit:
+				lit = x.Value
+			case *ast.Ident:
+				lit = x.Name
+			default:
+				return "", fmt.Errorf("constant %q is not a plain decimal literal", lit)
+			}
+		}
+		lit = strings.ReplaceAll(lit, "_", "")
 		if !regexp.MustCompile(`^[0-9]*\.?[0-9]+$`).MatchString(lit) {
 			return "", fmt.Errorf("captured %q is not a decimal literal", m[1])
 		}
